@@ -289,6 +289,15 @@ func (c *Ctx) ruleM5(rule string) {
 					c.Check(rule, fnName(f)+"#unlock-on-all-exits", x.releasedOnAllExits(op), op.in.Pos(), "g.lock taken in addResult must be released on every exit")
 				}
 			}
+			// every call leaves an entry: no way from the entry to a return round the store, and what
+			// is stored is the given value under the given name ("exactly one entry for each rule that
+			// reached a return, nil for a bare return")
+			if !strings.HasPrefix(rule, "M5") {
+				return // a matter of C11, not of who may write (C06) or under which lock (C19)
+			}
+			_, skip := pathExists(f, nil, isReturn, func(i2 ssa.Instruction) bool { return i2 == in })
+			asGiven := len(f.Params) == 3 && x.Origin(mu.Key) == ssa.Value(f.Params[1]) && x.Origin(mu.Value) == ssa.Value(f.Params[2])
+			c.Check(rule, fnName(f)+"#always-stores-as-given", !skip && asGiven, in.Pos(), "addResult must store the given value under the given name on every call (a way round the store: %v; name and value as given: %v)", skip, asGiven)
 		})
 	}
 	if n == 0 {
@@ -1224,6 +1233,24 @@ func (c *Ctx) orderSource(fn *ssa.Function, ranged ssa.Value, before ssa.Instruc
 	cell := x.Cell(base)
 	if cell == nil {
 		return "other", x.Describe(base)
+	}
+	// a list known to hold at most one element where the loop starts has no order to get wrong
+	for _, g := range x.GuardsOf(before.Block()) {
+		la, tlo, thi, flo, fhi, isLen := x.lenTest(g.Cond)
+		if !isLen || x.Cell(la) != cell {
+			continue
+		}
+		hi := fhi
+		if g.Pol {
+			hi = thi
+		}
+		_, _ = tlo, flo
+		if hi > 1 {
+			continue
+		}
+		if _, changed := pathExists(fn, g.If, func(in ssa.Instruction) bool { return x.isStoreTo(in, cell) }, func(in ssa.Instruction) bool { return in == before }); !changed {
+			return "sorted-local", cell.Comment + " (at most one element here)"
+		}
 	}
 	// sort calls on this cell
 	var sorts []*ssa.Call
